@@ -120,8 +120,21 @@ class FakeTermios:
     TCSAFLUSH = 2
     error = OSError
 
-    def __init__(self):
-        self.initial = [0o2402, 0o5, 0o277, 0o105073, 15, 15, [b"\x03", b"\x1c"]]
+    ICANON = 0o2
+    VARIANTS = ("default", "echo-off", "raw", "odd-cc", "noecho-raw")
+
+    def __init__(self, variant="default"):
+        """`variant`: the terminal attributes in force when draw() is called — a cooked tty, a TUI that has
+        switched ECHO off, a non-canonical one, odd VMIN/VTIME"""
+        lflag = 0o105073
+        cc = [b"\x03", b"\x1c", b"\x7f", b"\x15", b"\x04", 0, 1]  # … VTIME, VMIN
+        if variant in ("echo-off", "noecho-raw"):
+            lflag &= ~self.ECHO
+        if variant in ("raw", "noecho-raw"):
+            lflag &= ~self.ICANON
+        if variant in ("odd-cc", "noecho-raw"):
+            cc[5], cc[6] = 7, 0
+        self.initial = [0o2402, 0o5, 0o277, lflag, 15, 15, cc]
         self.attrs = [x if not isinstance(x, list) else list(x) for x in self.initial]
 
     def tcgetattr(self, fd):
@@ -136,10 +149,15 @@ class FakeTermios:
         self.attrs = [x if not isinstance(x, list) else list(x) for x in attrs]
 
     def summary(self):
-        """`7,<echo>`: everything but ECHO equal to the initial attributes"""
+        """`7,1` = exactly the initial attributes. First field: everything but ECHO equal to the initial value; second:
+        the ECHO bit equal to its initial value (the model is parametric in the initial attributes: its `(7, true)`
+        stands for whatever was in force)"""
         a, b = self.attrs, self.initial
         same = a[:3] == b[:3] and a[4:] == b[4:] and (a[3] & ~self.ECHO) == (b[3] & ~self.ECHO)
-        return f"{7 if same else 'X'},{int(bool(a[3] & self.ECHO))}"
+        return f"{7 if same else 'X'},{int((a[3] & self.ECHO) == (b[3] & self.ECHO))}"
+
+    def restored(self) -> bool:
+        return self.attrs == self.initial
 
 
 def fake_sleep(_x):
@@ -307,7 +325,7 @@ def run_new(d) -> RunResult:
     r.size = size
     rend = Scripted(frames, size, clear=d.get("clear", ""), hook=d.get("hook", ""))
     padding = make_padding(d, size)
-    ft = FakeTermios()
+    ft = FakeTermios(d.get("tattr", "default"))
     new_mod.termios = ft
     out = Stream(d["tty"])
     closes = []
@@ -547,7 +565,10 @@ def result_string(r: RunResult) -> str:
     if r.outcome.startswith("err "):
         return r.outcome
     attrs = r.ft.summary() if r.ft is not None else "7,1"
-    items = items_of(r)
+    try:
+        items = items_of(r)
+    except tk.TokenizeError:  # a sequence the library is not known to write: the oracle deals with it
+        items = ["?untokenizable"]
     return (f"ok {r.outcome} {attrs} {r.finalized} {r.iter_closed} {r.seek_ok} {r.size_ok} "
             + " ".join([str(len(items))] + items))
 
@@ -596,7 +617,7 @@ def random_config(rng: random.Random, tier: str, api=None) -> dict:
     return d
 
 
-def finish_geometry(rng: random.Random, d: dict):
+def finish_geometry(rng: random.Random, d: dict, rel=None):
     """terminal size and padding around the render size: from exactly-fits to one-too-small"""
     _, size = source_frames({**d, "W": 200, "H": 100})
     w, h = size
@@ -621,12 +642,14 @@ def finish_geometry(rng: random.Random, d: dict):
         d["v_align"] = rng.choice([None, "^", "-", "_"])
         d["pad_width"] = rng.choice([1, 1, w, w + 1, w + 2, w + 5, 0, -1])
         d["pad_height"] = rng.choice([1, 1, h, h + 1, h + 2, h + 3, -2, 0])
-        d["dynamic"] = rng.random() < 0.15
+        d["dynamic"] = rel is None and rng.random() < 0.15
         d["start_frame"] = rng.choice([0, 0, 1])
         bw = max(d["pad_width"], w) if d["pad_width"] > 0 else w
         bh = max(d["pad_height"], h) if d["pad_height"] > 0 else h
-    rel = rng.choice(["fits", "fits", "fits", "exact", "exact", "w-1", "h-1", "big"])
-    if rel == "fits":
+    rel = rel or rng.choice(["fits", "fits", "fits", "exact", "exact", "w-1", "h-1", "big"])
+    if rel == "both":
+        d["W"], d["H"] = max(bw - 1, 1), max(bh - 1, 1)
+    elif rel == "fits":
         d["W"], d["H"] = bw + rng.randrange(0, 4), bh + rng.randrange(0, 4)
     elif rel == "exact":
         d["W"], d["H"] = bw, bh
@@ -653,6 +676,39 @@ def lean_kind(d) -> str:
 
 
 # ------------------------------------------------------------------------------------------
+
+
+DECSC, DECRC = "\x1b7", "\x1b8"
+
+
+def expand_decsc(out: str, W, H, kind, row, top):
+    """DECSC / DECRC (ESC 7 / ESC 8) are not sequences the library is known to write and not tokens of the shared
+    terminal model; the oracle gives them their meaning here: DECSC remembers the cursor's position ON THE SCREEN
+    (row relative to the viewport, column), DECRC puts the cursor back there — wherever the viewport has scrolled to
+    in the meantime. Each DECRC is replaced by the explicit cursor moves that do the same from the state the
+    terminal model is in at that point (one driver call per DECRC). Returns the token list."""
+    import re
+    pieces = re.split("(\x1b7|\x1b8)", out)
+    toks: list = []
+    saved = (0, 0)  # the power-on value: home
+    for p in pieces:
+        if p not in (DECSC, DECRC):
+            toks += tk.tokenize(p)
+            continue
+        st = parse_state(fw.run_driver(DRIVER, [f"term.run {W} {H} {kind} {row} 0 {top} 0 {tk.wire(toks)}"])[0])
+        if p == DECSC:
+            saved = (st["row"] - st["top"], st["col"])
+        else:
+            target = st["top"] + saved[0]
+            moves = "\r"
+            if target < st["row"]:
+                moves += ctl.CURSOR_UP % (st["row"] - target)
+            elif target > st["row"]:
+                moves += ctl.CURSOR_DOWN % (target - st["row"])
+            if saved[1]:
+                moves += ctl.CURSOR_FORWARD % saved[1]
+            toks += tk.tokenize(moves)
+    return toks
 
 
 def parse_state(resp: str):
@@ -699,6 +755,25 @@ class C06(Property):
         return g
 
     def generate(self, rng: random.Random, tier: str):
+        # size validation: the FULL option grid on every run — animated × animate × allow_scroll/scroll × check_size ×
+        # (fits / one column too wide / one line too tall / both), both APIs; the oracle is the documented rule
+        for api in ("new", "old"):
+            for animated in (True, False):
+                for animate in (True, False):
+                    for scroll in (True, False):
+                        for check in (True, False):
+                            for rel in ("fits", "w-1", "h-1", "both"):
+                                d = random_config(rng, tier, api)
+                                d.update(style="block", term="", nframes=2 if animated else 1, animate=animate,
+                                         allow_scroll=scroll, check_size=check, cols=rng.randrange(3, 7),
+                                         lines=rng.randrange(3, 6), by_width=rng.random() < 0.5, loops=1)
+                                for k in ("method", "mix", "kitty_version"):
+                                    d.pop(k, None)
+                                d = finish_geometry(rng, d, rel)
+                                if api == "old":
+                                    d["dynamic"] = False
+                                d["op"] = "validate"
+                                yield Case("", d, f"validate-grid-{api}-{rel}", True)
         while True:
             d = finish_geometry(rng, random_config(rng, tier))
             anim = d["animate"] and d["nframes"] > 1
@@ -753,8 +828,12 @@ class C06(Property):
         f = self._oracle_validate(d, where, raised=False)
         if f:
             return f
+        decsc = DECSC in out or DECRC in out
         try:
-            toks = tk.tokenize(out)
+            toks = None if decsc else tk.tokenize(out)
+            if decsc:  # every other unknown sequence stays a finding
+                for piece in out.replace(DECRC, DECSC).split(DECSC):
+                    tk.tokenize(piece)
         except tk.TokenizeError as e:
             return Failure(f"tokenize/{where}", str(e))
         W, H = d["W"], d["H"]
@@ -768,11 +847,10 @@ class C06(Property):
         else:
             starts += [rng.randrange(0, max(H - bh, 0) + 1)]
         top0 = rng.randrange(0, 3)
-        segs = d["_segments"]
-        seg_tok_counts = [len(tk.tokenize(s)) for s in segs]
         reqs = []
         for s0 in starts:
-            reqs.append(f"term.run {W} {H} {lean_kind(d)} {top0 + s0} 0 {top0} 0 {tk.wire(toks)}")
+            tks = expand_decsc(out, W, H, lean_kind(d), top0 + s0, top0) if decsc else toks
+            reqs.append(f"term.run {W} {H} {lean_kind(d)} {top0 + s0} 0 {top0} 0 {tk.wire(tks)}")
         res = fw.run_driver(DRIVER, reqs)
         for s0, resp in zip(starts, res):
             st = parse_state(resp)
@@ -796,6 +874,8 @@ class C06(Property):
             if st["scrolls"] != need:
                 return Failure(f"scroll/{where}", f"scrolled {st['scrolls']} lines, {need} necessary ({at})")
         # last frame in place + every frame over the same cells (first start row that fits)
+        if decsc:
+            return None  # the per-frame attribution below needs the library's own sequences only
         s0 = 0
         r0 = top0 + s0
         f = self._oracle_frames(d, where, toks, W, H, r0, top0, anim)
